@@ -174,14 +174,16 @@ class MemTransport(asyncio.Transport):
     def deliver(self, n: int | None = None) -> bytes:
         """Env event: `n` (default all) in-flight bytes arrive at this end."""
         p = self.peer
+        if self._paused and not (self._closing or self._lost_called):
+            # pause_reading() removed the reader: a read event that was already
+            # queued in the same pass is cancelled with it; the bytes stay put
+            return b""
         avail = len(p.wire)
         n = avail if n is None else min(n, avail)
         data = bytes(p.wire[:n])
         del p.wire[:n]
         if self._closing or self._lost_called:
             return b""  # socket already closed: arriving bytes are discarded
-        if self._paused:
-            self.delivered_while_paused += 1
         if data:
             self._protocol.data_received(data)
         return data
